@@ -198,6 +198,15 @@ def transition_safety(p: View, v: View) -> Optional[Tuple[str, str]]:
         j = v.jobs.get(k)
         if j is not None and o['state'] in TERMINAL and j['state'] != o['state']:
             return (f'terminal-not-absorbing:{o["state"]}->{j["state"]}', f'job {k} was {o["state"]} (terminal) and is now {j["state"]}')
+    # one pass of an actor opens at most one attempt per job (the scheduler yields every runnable job once)
+    fresh: Dict[Tuple[int, int], List[str]] = {}
+    for k in v.attempts:
+        if k not in p.attempts:
+            fresh.setdefault((k[0], k[1]), []).append(k[2])
+    for k, atts in fresh.items():
+        if len(atts) > 1:
+            return ('job-scheduled-twice-in-one-pass', f'one actor step recorded {len(atts)} new attempts {sorted(atts)} for job {k}: the job was '
+                                                       f'handed to workers under several attempt ids at once')
     return abandoned_attempt(p, v)
 
 
